@@ -36,7 +36,7 @@ DIR_LAYOUTS = [
     ("y/m.d", ["{year}", "{month}.{day}"], "day"),
 ]
 # A literal directory level *between* placeholder levels (finding #14 of DESIGN section 6)
-LITERAL_BETWEEN = ("y/lit/m", ["{year}", "fixed", "{month}"], "month")
+DIR_LAYOUTS.append(("y/lit/m", ["{year}", "fixed", "{month}"], "month"))
 
 FILE_PARTS = {
     "full": "{year}{month}{day}_{hour}{minute}{second}-{end_year}{end_month}{end_day}T"
